@@ -45,8 +45,14 @@ def literal(goal):
     return None
 
 
-def safe_build(build, sizes, chk, what):
+def safe_build(build, sizes, chk, what, only=None):
     try:
+        if only is not None:
+            try:
+                return build(sizes, only)
+            except TypeError as e:
+                if "positional argument" not in str(e):
+                    raise
         return build(sizes) if sizes is not None else build()
     except (Unsupported, CalleeRaises, KeyError, TypeError, AssertionError, AttributeError, IndexError, ValueError, RecursionError) as e:
         chk.notes.append(f"{what}: engine could not execute the current source: {type(e).__name__}: {e}")
@@ -59,7 +65,7 @@ def safe_build(build, sizes, chk, what):
 
 
 def prove(chk, build, ground_sizes=(), replay=None, timeout=None, known_ok=None, canaries=8, min_obligations=1):
-    timeout = timeout or (20 if chk.tier == "quick" else 120)
+    timeout = timeout or (10 if chk.tier == "quick" else 60)
     t0 = time.time()
     obs = safe_build(build, None, chk, "symbolic build")
     if obs is None:
@@ -99,7 +105,7 @@ def prove(chk, build, ground_sizes=(), replay=None, timeout=None, known_ok=None,
             if time.time() - t0 > (600 if chk.tier == "quick" else 3000):
                 break
             if sz not in gcache:
-                gcache[sz] = safe_build(build, sz, chk, f"ground build {sz}") or []
+                gcache[sz] = safe_build(build, sz, chk, f"ground build {sz}", only={f.id for f in failed}) or []
             go = next((g for g in gcache[sz] if g.id == o.id), None)
             if go is None:
                 continue
